@@ -638,8 +638,47 @@ pub fn forced_cycle(g: &mut G, index: u64) -> Scenario {
     let mut clients: Vec<Vec<Op>> = Vec::new();
     match placement {
         0 => {
-            let m = chain_msg(g, 0, len, 0, true);
-            clients.push(vec![if g.chance(500) { Op::Tell { h: 0, m } } else { Op::Ask { h: 0, m } }]);
+            let mut m = chain_msg(g, 0, len, 0, true);
+            if g.chance(400) {
+                // prelude: before its cycle edge, actor 0 abandons an ask (timeout or cancellation) to an
+                // extra, busy actor S whose mailbox keeps the stale request until S gets to it - which
+                // happens after the cycle edge exists and before the closing ask (the last participant
+                // waits long enough). The cycle must still be detected.
+                let s_idx = len as u32;
+                actors.push(ActorSpec { cap: Some(g.pick(&[2usize, 4, 32])), ..Default::default() });
+                let busy = g.range(10, 30);
+                clients.push(vec![Op::Tell { h: s_idx, m: Msg::with(g.mid(), vec![Op::Sleep(busy)]) }]);
+                let stale = Msg::work(g.mid());
+                let abandoned = if g.chance(600) {
+                    Op::AskT { h: 50 + s_idx, m: stale, ms: g.range(1, 5) }
+                } else {
+                    Op::Cancel { op: Box::new(Op::Ask { h: 50 + s_idx, m: stale }), polls: 1, ms: None }
+                };
+                m.steps.insert(0, abandoned);
+                m.steps.insert(0, Op::Sleep(1));
+                // the participant that closes the cycle waits until S has flushed the stale request
+                fn last_mut(m: &mut Msg, depth: usize) -> &mut Msg {
+                    if depth == 0 {
+                        return m;
+                    }
+                    let pos = m.steps.iter().position(|o| matches!(o, Op::Ask { .. } | Op::AskT { .. })).unwrap();
+                    // skip the abandoned ask in the first message
+                    let idx = m.steps.iter().rposition(|o| matches!(o, Op::Ask { .. } | Op::AskT { .. })).unwrap_or(pos);
+                    match &mut m.steps[idx] {
+                        Op::Ask { m, .. } | Op::AskT { m, .. } => last_mut(m, depth - 1),
+                        _ => unreachable!(),
+                    }
+                }
+                if len >= 2 {
+                    let closer = last_mut(&mut m, len - 1);
+                    closer.steps.insert(0, Op::Sleep(busy + 10));
+                } else {
+                    // self-ask: wait in the same handler
+                    let at = m.steps.len() - 1;
+                    m.steps.insert(at, Op::Sleep(busy + 10));
+                }
+            }
+            clients.push(vec![Op::Sleep(2), if g.chance(500) { Op::Tell { h: 0, m } } else { Op::Ask { h: 0, m } }]);
         }
         1 | 2 | 3 => {
             // actor 0's ask sits in a lifecycle hook; the rest of the chain runs in handlers
@@ -757,7 +796,15 @@ pub fn temporal_acyclic(g: &mut G) -> Scenario {
     let ending = g.below(6); // how A's ask to B ends: 0 reply, 1 timeout, 2 cancelled, 3 callee panics, 4 callee killed, 5 reply after delay
     // B is kept busy so that A's request and B's own trigger queue up behind each other
     let busy = g.range(5, 30);
-    let mut c0 = vec![Op::Tell { h: b as u32, m: Msg::with(g.mid(), vec![Op::Sleep(busy)]) }];
+    // variant: the busy handler itself asks A back at its end - by then A's ask may have timed out or
+    // been cancelled while its request is still sitting in B's mailbox
+    let busy_asks_back = (ending == 1 || ending == 2) && g.chance(500);
+    let mut busy_steps = vec![Op::Sleep(busy)];
+    if busy_asks_back {
+        let m = Msg::work(g.mid());
+        busy_steps.push(ask_variant(g, 50 + a as u32, m));
+    }
+    let mut c0 = vec![Op::Tell { h: b as u32, m: Msg::with(g.mid(), busy_steps) }];
     // A asks B
     let ping_steps = match ending {
         3 => vec![Op::Panic],
